@@ -88,7 +88,10 @@ func (m *Model) noteWrite(l *MLoc, it *Item) {
 			continue
 		}
 		if m.pend(l)[s] {
-			m.markUnc(l, it.Id, map[string]bool{s: true})
+			// written while the purge of s is pending: whether the engine's
+			// later purge of s takes this item along cannot be known, and
+			// observing s does not settle it ("+": never cleared by Confirm)
+			m.markUnc(l, it.Id, map[string]bool{"+" + s: true})
 		}
 		if by, ok := u[s]; ok && s != it.Id {
 			m.markUnc(l, it.Id, by)
@@ -574,7 +577,7 @@ func MatchBindings(pattern, data map[string]interface{}) ([]string, error) {
 	}
 	out := make([]string, 0, len(bss))
 	for _, bs := range bss {
-		out = append(out, Canon(map[string]interface{}(bs)))
+		out = append(out, CanonSet(map[string]interface{}(bs)))
 	}
 	sort.Strings(out)
 	return out, nil
@@ -735,3 +738,16 @@ func (m *Model) StateKey() string {
 
 func (m *Model) WriteKeyOf(l *MLoc) string { return m.propString(l, "writeKey") }
 func (m *Model) ReadKeyOf(l *MLoc) string  { return m.propString(l, "readKey") }
+
+// PurgeAll purges expired items in every location (to be called before any
+// observation is judged, so that uncertainty marks are current).
+func (m *Model) PurgeAll() {
+	names := make([]string, 0, len(m.Locs))
+	for n := range m.Locs {
+		names = append(names, n)
+	}
+	sort.Strings(names)
+	for _, n := range names {
+		m.Purge(m.Locs[n])
+	}
+}
